@@ -49,7 +49,7 @@ def gen_cases(tier, seed):
             c.update(t0=float(np.round(rng.uniform(-1, 2), 3)), pbatch=bool(rng.integers(2)))
         if kind == "ic_pde":
             c.update(u0shape=["(k,)", "()"][int(rng.integers(2))], wvec=bool(rng.integers(2)),
-                     cartesian=bool(rng.integers(2)), nt=int(rng.integers(1, 4)))
+                     cartesian=bool(rng.integers(2)), nt=int(rng.integers(1, 4)), pbatch=bool(k % 3 == 1))
         if kind.startswith("norm"):
             c.update(S=int(rng.integers(1, 51)), V=float(np.round(rng.uniform(0.2, 6.0), 3)),
                      nt=int(rng.integers(1, 5)))
@@ -168,9 +168,10 @@ def run_case(case, rec):
     # ------------------------------------------------------------------ initial condition, PDE
     if kind == "ic_pde":
         f = fields.TrigField(case["seed"], 1 + d, n_out)
-        net = nets.Net(f, "nonstatio_PDE")
+        pb_ic = bool(case.get("pbatch"))
+        net = nets.Net(f, "nonstatio_PDE", reads=("theta",) if pb_ic else ())
         u = net.pinn()
-        params = Params(nn_params=net.nn_params(), eq_params={"nu": jnp.asarray(1.0)})
+        params = Params(nn_params=net.nn_params(), eq_params={"nu": jnp.asarray(1.0), "theta": jnp.asarray(1.7)})
         al = rng.uniform(-1, 1, n_out)
         be = rng.uniform(-1, 1, (n_out, d))
         A, Bm = jnp.asarray(al), jnp.asarray(be)
@@ -193,15 +194,22 @@ def run_case(case, rec):
         else:
             tx = np.concatenate([rng.uniform(0, 1, (B, 1)), xs], axis=1)
         batch = jinns.data.PDENonStatioBatch(times_x_inside_batch=jnp.asarray(tx), times_x_border_batch=None)
+        thetas = None
+        if pb_ic:
+            # a parameter batch (one row per batch point) of a parameter the network reads: point i is compared with
+            # the network evaluated with row i
+            thetas = rng.uniform(0.5, 2.0, (tx.shape[0], 1))
+            batch = jinns.data.append_param_batch(batch, {"theta": jnp.asarray(thetas)})
+            rec.count("ic_pde_cases_with_param_batch")
         total, terms = guard.call(jit_eval, loss, params, batch)
         vals = []
-        for row in tx:
+        for i_, row in enumerate(tx):
             x = row[1:]
-            r = u0n(x) - net.val(np.concatenate([[0.0], x]))
+            r = u0n(x) - net.val(np.concatenate([[0.0], x]), {"theta": thetas[i_, 0] if pb_ic else 1.7})
             vals.append(float(np.sum(np.asarray(wv) * r ** 2)))
         rec.count("ic_cases")
         finish("initial_condition", float(terms["initial_condition"]), float(np.mean(vals)),
-               "initial-condition/pde/u0-returns-%s" % case["u0shape"],
+               "initial-condition/pde/u0-returns-%s%s" % (case["u0shape"], "/param-batch" if pb_ic else ""),
                (kind, d, n_out, case["u0shape"], case["wvec"], case["cartesian"], case["seed"]), batch_shape=list(tx.shape))
         return
 
